@@ -620,6 +620,32 @@ int main(int argc, char **argv) {
     c.order = order;
     return c;
   };
+  // long animations whose LAST track costs almost nothing to code (constant, or the same value in every component): the compressed
+  // payload left when that track starts is far smaller than the number of frames
+  add(R, "frames10k_low_entropy_last_track", 3ull * 2 * 3 * 2, true, true, [=](uint64_t idx) {
+    mc::Radix rx{3, 2, 3, 2};
+    auto d = rx.decode(idx);
+    Case c;
+    c.frames = 10000;
+    if (d[1]) {
+      Track t;
+      t.kind = F32A;
+      t.comps = 3;
+      t.quant = 0;
+      fill_pattern(t, c.frames, 1, 1, 0);
+      c.tracks.push_back(t);
+    }
+    Track last;
+    last.kind = d[0] == 1 ? F32A : I32;
+    last.comps = d[0] == 2 ? 1 : 3;
+    last.quant = d[0] == 1 ? 8 : 0;
+    fill_pattern(last, c.frames, 0, d[3] ? 1 : 0, 1);  // same digit in every frame (d[3]: components differ)
+    c.tracks.push_back(last);
+    c.ts_mode = 0;
+    c.speed = kSpeed[d[2]];
+    c.order = 0;
+    return c;
+  }, 60);
   add(R, "frames10k_small", 3ull * 4 * 3 * 3, true, false, [=](uint64_t idx) {
     mc::Radix rx{3, 4, 3, 3};
     auto d = rx.decode(idx);
